@@ -1,0 +1,225 @@
+//go:build verif
+
+/*
+ * Atree - Scalable Arrays and Ordered Maps
+ *
+ * Copyright Flow Foundation
+ *
+ * Licensed under the Apache License, Version 2.0 (the "License");
+ * you may not use this file except in compliance with the License.
+ * You may obtain a copy of the License at
+ *
+ *   http://www.apache.org/licenses/LICENSE-2.0
+ *
+ * Unless required by applicable law or agreed to in writing, software
+ * distributed under the License is distributed on an "AS IS" BASIS,
+ * WITHOUT WARRANTIES OR CONDITIONS OF ANY KIND, either express or implied.
+ * See the License for the specific language governing permissions and
+ * limitations under the License.
+ */
+
+package atree
+
+import "fmt"
+
+// Verification hooks for nested containers (parent/child notification, inlining). This file
+// only exists for the compiler when the build tag "verif" is set. It adds read-only accessors
+// to unexported state of Array/OrderedMap wrappers; it does not change any existing declaration.
+
+// VerifNestedInfo is what one wrapper object (*Array / *OrderedMap) currently knows.
+type VerifNestedInfo struct {
+	ValueID          ValueID
+	IsMap            bool
+	RootIsData       bool
+	RootSize         uint32 // cached header.size of the root slab
+	RootPrefix       uint32 // prefix size the root slab currently uses (root / inlined / non-root)
+	Inlined          bool
+	HasParentUpdater bool
+	DataSlabs        int    // number of data slabs below (or equal to) the root
+	DataSize         uint32 // arrays: sum over data slabs of (cached size - prefix); maps: hkeyElementsPrefixSize + sum over data slabs of (cached elements size - hkeyElementsPrefixSize)
+	InlinedSize      uint32 // size the root would have as an inlined slab (only meaningful if RootIsData)
+}
+
+// VerifContainerInfo reads the cached bookkeeping of a container through the given wrapper.
+func VerifContainerInfo(v Value) (VerifNestedInfo, error) {
+	switch c := v.(type) {
+	case *Array:
+		info := VerifNestedInfo{
+			ValueID:          c.ValueID(),
+			RootIsData:       c.root.IsData(),
+			RootSize:         c.root.Header().size,
+			Inlined:          c.root.Inlined(),
+			HasParentUpdater: c.parentUpdater != nil,
+		}
+		var walk func(s ArraySlab, depth int) error
+		walk = func(s ArraySlab, depth int) error {
+			if depth > 64 {
+				return fmt.Errorf("verif: array slab tree deeper than 64")
+			}
+			switch x := s.(type) {
+			case *ArrayDataSlab:
+				p := x.getPrefixSize()
+				if x.header.size < p {
+					return fmt.Errorf("verif: data slab %s cached size %d below its prefix %d", x.header.slabID, x.header.size, p)
+				}
+				info.DataSlabs++
+				info.DataSize += x.header.size - p
+			case *ArrayMetaDataSlab:
+				for _, h := range x.childrenHeaders {
+					child, err := getArraySlab(c.Storage, h.slabID)
+					if err != nil {
+						return err
+					}
+					if err := walk(child, depth+1); err != nil {
+						return err
+					}
+				}
+			}
+			return nil
+		}
+		if err := walk(c.root, 0); err != nil {
+			return info, err
+		}
+		if d, ok := c.root.(*ArrayDataSlab); ok {
+			info.RootPrefix = d.getPrefixSize()
+			info.InlinedSize = d.header.size - d.getPrefixSize() + inlinedArrayDataSlabPrefixSize
+		}
+		return info, nil
+
+	case *OrderedMap:
+		info := VerifNestedInfo{
+			ValueID:          c.ValueID(),
+			IsMap:            true,
+			RootIsData:       c.root.IsData(),
+			RootSize:         c.root.Header().size,
+			Inlined:          c.root.Inlined(),
+			HasParentUpdater: c.parentUpdater != nil,
+			DataSize:         hkeyElementsPrefixSize,
+		}
+		slabs, err := verifMapDataSlabs(c)
+		if err != nil {
+			return info, err
+		}
+		for _, s := range slabs {
+			sz := s.elements.Size()
+			if sz < hkeyElementsPrefixSize {
+				return info, fmt.Errorf("verif: data slab %s cached elements size %d below the prefix", s.header.slabID, sz)
+			}
+			info.DataSlabs++
+			info.DataSize += sz - hkeyElementsPrefixSize
+		}
+		if d, ok := c.root.(*MapDataSlab); ok {
+			info.RootPrefix = d.getPrefixSize()
+			info.InlinedSize = inlinedMapDataSlabPrefixSize + d.elements.Size()
+		}
+		return info, nil
+	}
+	return VerifNestedInfo{}, fmt.Errorf("verif: %T is not a container", v)
+}
+
+// VerifArrayIndexMap returns a copy of the wrapper's mutableElementIndex.
+func VerifArrayIndexMap(a *Array) map[ValueID]uint64 {
+	out := make(map[ValueID]uint64, len(a.mutableElementIndex))
+	for k, v := range a.mutableElementIndex {
+		out[k] = v
+	}
+	return out
+}
+
+// VerifMaxInlineMapValueSize exposes maxInlineMapValueSize(keySize).
+func VerifMaxInlineMapValueSize(keySize uint32) uint32 { return maxInlineMapValueSize(keySize) }
+
+// VerifValueIDIndex returns the slab-index half of a value identifier.
+func VerifValueIDIndex(id ValueID) uint64 {
+	var idx SlabIndex
+	copy(idx[:], id[SlabAddressLength:])
+	return NewSlabID(Address{}, idx).IndexAsUint64()
+}
+
+// VerifMapEntries returns the (key, value) storables of all level-0 single elements of the map in
+// canonical order; ok is false if the map contains a collision group.
+func VerifMapEntries(m *OrderedMap) (keys []Storable, values []Storable, sizes []uint32, ok bool, err error) {
+	es, err := VerifMapElements(m)
+	if err != nil {
+		return nil, nil, nil, false, err
+	}
+	ok = true
+	for _, e := range es.Elems {
+		if e.Kind != 0 {
+			ok = false
+			continue
+		}
+		keys = append(keys, e.Key)
+		values = append(values, e.Value)
+		sizes = append(sizes, e.Size)
+	}
+	return keys, values, sizes, ok, nil
+}
+
+// VerifContainerSlabIDs lists the identifiers of the stored slabs that make up the container's
+// own slab tree (root, index slabs, data slabs, external collision groups), not those of nested
+// containers. An inlined container has none.
+func VerifContainerSlabIDs(v Value) ([]SlabID, error) {
+	var out []SlabID
+	switch c := v.(type) {
+	case *Array:
+		if c.root.Inlined() {
+			return nil, nil
+		}
+		var walk func(s ArraySlab, depth int) error
+		walk = func(s ArraySlab, depth int) error {
+			if depth > 64 {
+				return fmt.Errorf("verif: array slab tree deeper than 64")
+			}
+			out = append(out, s.SlabID())
+			if x, ok := s.(*ArrayMetaDataSlab); ok {
+				for _, h := range x.childrenHeaders {
+					child, err := getArraySlab(c.Storage, h.slabID)
+					if err != nil {
+						return err
+					}
+					if err := walk(child, depth+1); err != nil {
+						return err
+					}
+				}
+			}
+			return nil
+		}
+		return out, walk(c.root, 0)
+
+	case *OrderedMap:
+		if c.root.Inlined() {
+			return nil, nil
+		}
+		var walk func(s MapSlab, depth int) error
+		walk = func(s MapSlab, depth int) error {
+			if depth > 64 {
+				return fmt.Errorf("verif: map slab tree deeper than 64")
+			}
+			out = append(out, s.SlabID())
+			switch x := s.(type) {
+			case *MapMetaDataSlab:
+				for _, h := range x.childrenHeaders {
+					child, err := getMapSlab(c.Storage, h.slabID)
+					if err != nil {
+						return err
+					}
+					if err := walk(child, depth+1); err != nil {
+						return err
+					}
+				}
+			case *MapDataSlab:
+				if he, ok := x.elements.(*hkeyElements); ok {
+					for _, el := range he.elems {
+						if g, ok := el.(*externalCollisionGroup); ok {
+							out = append(out, g.slabID)
+						}
+					}
+				}
+			}
+			return nil
+		}
+		return out, walk(c.root, 0)
+	}
+	return nil, fmt.Errorf("verif: %T is not a container", v)
+}
